@@ -9,7 +9,7 @@ import json
 from vf import nodes
 from vf.engines import schedx
 
-from frappy.core import Readable, Parameter, FloatRange, IntRange, StringType   # noqa: E402
+from frappy.core import Readable, Parameter, Command, FloatRange, IntRange, StringType   # noqa: E402
 from frappy.errors import HardwareError, CommunicationFailedError                # noqa: E402
 from frappy.protocol.interface.tcp import TCPRequestHandler                      # noqa: E402
 import frappy.protocol.dispatcher as _dispatcher                                 # noqa: E402
@@ -27,6 +27,18 @@ class M(Readable):
     hidden = Parameter('unexported', IntRange(), default=0, export=False)
 
     script = None     # dict pname -> list of values / exceptions returned by read_<pname>
+    tickets = 0
+
+    @Command(result=IntRange())
+    def take(self):
+        """hand out the next ticket: a read-modify-write on driver state with a hardware access in between - atomic only
+        because requests are handled one at a time"""
+        n = self.tickets
+        s = schedx.active()
+        if s is not None:
+            s.point('yield', 'hardware')
+        self.tickets = n + 1
+        return n + 1
 
     def read_value(self):
         return self._next('value')
